@@ -79,7 +79,7 @@ def _dict_inv(v, n):
     """the lookup table built from the first n pair potentials: key present iff some potential has that unordered
     pair, and then it maps to the LAST such potential"""
     x, y = z3.String('x!d'), z3.String('y!d')
-    d = v.val('pairpotsdict'); d = v._ex.deref(d, v._st)
+    d = v.pairpotsdict
     k = KeySort.mk(x, y)
     i = find(v.pairpots, x, y, n)
     return [forall([x, y], z3.And(z3.Select(d.has, k) == z3.And(x <= y, i >= 0),
